@@ -339,6 +339,16 @@ C02Why(e) ==
          ELSE IF e.haserr THEN ""
          ELSE IF SameValue(e.in, e.out, {}) THEN "" ELSE "decoded graph has a different unfolding"
 
+\* C05: decoding from a fragmenting reader (b) gives what decoding the contiguous bytes (a) gives
+C05Why(e) ==
+    IF e.b.panic # "none" /\ e.a.panic = "none" THEN "the streaming decoder panics: " \o e.b.panic
+    ELSE IF e.a.panic # "none" THEN ""        \* the contiguous decoder itself panics on this input: property C04
+    ELSE IF (e.a.err = "none") # (e.b.err = "none") THEN "error outcome differs"
+    ELSE IF e.a.err # "none" THEN ""
+    ELSE IF e.a.rest # e.b.rest THEN "final position differs"
+    ELSE IF e.a.fault # "none" \/ e.b.fault # "none" THEN "wild-pointer"
+    ELSE IF SameValue(e.a.out, e.b.out, {}) /\ SameValue(e.b.out, e.a.out, {}) THEN "" ELSE "value differs"
+
 C03Why(e) ==
     IF ~EncodedOK(e) THEN "encode"
     ELSE LET p == Parse(e.toks, e.nvals) IN
